@@ -104,8 +104,7 @@ def tree_hash(extra=()):
     """content hash of everything a verdict depends on: the repository sources and data, the checker"""
     h = hashlib.sha256()
     here = os.path.dirname(os.path.abspath(__file__))
-    roots = [os.path.join(REPO, 'stdnum'), os.path.join(REPO, 'online_check'), here,
-             os.path.join(os.path.dirname(here), 'contracts')]
+    roots = [os.path.join(REPO, 'stdnum'), os.path.join(REPO, 'online_check'), here]
     for root in roots:
         for dp, dn, fn in sorted(os.walk(root)):
             dn.sort()
